@@ -256,7 +256,7 @@ theorem batchLength_eq (n : Nat) (ns : List Nat) (hc : ∀ l ∈ ns, l = n ∨ l
     · exact absurd h h1
     · exact batchLength_of_compat n h1 ns h hc
 
-/-- **the case F12 and F15 are about**: after a batch of `n` rows every input variable holds `n` rows (or a single
+/-- **the case F12 and F17 are about**: after a batch of `n` rows every input variable holds `n` rows (or a single
     value given as a float), and every output variable holds `n` rows or – disabled, or without activations – a single
     row.  When `n` is 1 or SOME value, of an input variable or of an output variable, has `n` rows, `output_values` does
     not raise and is the 2-D array of `n` rows in which the single rows are repeated -/
@@ -287,7 +287,7 @@ theorem stretch_single (n : Nat) (r : List (X Rat)) (h : r.length = 1) :
   match r, h with
   | [x], _ => rfl
 
-/-- **F15**: no output variable holds a value per row (all of them disabled, no rule block enabled, no rule concluding
+/-- **F17**: no output variable holds a value per row (all of them disabled, no rule block enabled, no rule concluding
     them) while the input variables hold the `n` rows of the batch: `output_values` has `n` rows, each the single
     values of the output variables.  (Before the repair it had ONE row, so `Engine.values` raised.) -/
 theorem outputValues_no_activations (ins outs : List (VarValue Rat)) (n : Nat) (hne : outs ≠ []) (hi : ins ≠ [])
@@ -364,7 +364,7 @@ theorem code_values (ins : List (InVar Rat × VarValue Rat)) (outs : List (OutVa
       | error e => rfl
       | ok r => exact ⟨_, rfl, rfl⟩
 
-/-- F15 for `Engine.values`: with the `n` rows of the batch on every input variable and single values on every output
+/-- F17 for `Engine.values`: with the `n` rows of the batch on every input variable and single values on every output
     variable the two getters return `n` rows each, so `values` is their `n` rows side by side -/
 theorem allValues_no_activations (ins outs : List (VarValue Rat)) (n : Nat) (hne : outs ≠ []) (hi : ins ≠ [])
     (hins : ∀ v ∈ ins, v.rows.length = n) (houts : ∀ v ∈ outs, v.rows.length = 1) :
